@@ -6,6 +6,7 @@
 From AP.Model Require Import Prelude Bytes Vocab Pred Url IriEq Nlv Json Text Equal Coll Dispatch Layout JsonTables JsonLeaf
      JsonEnc JsonTree JsonCheck JsonDec JsonNorm JsonRoundCheck.
 From AP.Proofs Require Import NlvP TextP C01NumP C01TimeP C01StrP C01TreeP C01ParseP C01TreeWfP C01FlatP C01ItemP.
+From AP.Proofs Require TimeRangeP.
 Local Open Scope nat_scope.
 
 (* ------------------------------------------------------------------ guards *)
@@ -593,7 +594,10 @@ Section Field.
       - (* TTime *)
         destruct v as [ | | | |tm| | | | | | | | ]; try discriminate. cbn [wf_fval] in Hw.
         apply bytes_eqb_eq in Hwf. subst w. apply bytes_eqb_eq in Hgf. subst rg.
-        unfold t_value in Ev. ev_eqb_in Ev. injection Ev as E1 E2 E3; subst t' ov r0. rewrite (Fin _ eq_refl) in *. split; [discriminate|].
+        assert (Hdom0 : time_dom (vsecs tm) = true).
+        { unfold time_ok in Hw. rewrite !andb_true_iff in Hw. destruct Hw as [[H1 H2] _]. unfold time_dom. rewrite H1, H2. reflexivity. }
+        unfold t_value in Ev. ev_eqb_in Ev. rewrite (TimeRangeP.time_writable_dom tm), Hdom0 in Ev.
+        injection Ev as E1 E2 E3; subst t' ov r0. rewrite (Fin _ eq_refl) in *. split; [discriminate|].
         split; [apply Leaf; [reflexivity|cbn; lia]|].
         assert (Hkey : In t (keys_of (mkwf t (B "JSONWriteTimeProp") [f] via gs))) by (unfold keys_of, is_nlv_writer; cbn [wf_writer wf_term]; ev_eqb; left; reflexivity).
         assert (Hj : jget val t = Some (Text.FStr (fmt_rfc3339_utc (vsecs tm)))) by (apply get_hit; [exact Hplain|apply Hlook; exact Hkey]).
@@ -905,7 +909,8 @@ Section Field.
               rewrite E. eexists; reflexivity.
             * eexists; reflexivity.
             * destruct s; [congruence|]. eexists; reflexivity.
-          + (* TTime *) destruct v as [ | | | |tm| | | | | | | | ]; try discriminate. apply bytes_eqb_eq in Hwf. subst w. ev_eqb. eexists; reflexivity.
+          + (* TTime *) destruct v as [ | | | |tm| | | | | | | | ]; try discriminate. apply bytes_eqb_eq in Hwf. subst w. ev_eqb.
+            destruct (time_writable tm); eexists; reflexivity.
           + (* TDur *) destruct v as [ | | | | |dd| | | | | | | ]; try discriminate. apply bytes_eqb_eq in Hwf. subst w. ev_eqb.
             cbn [wf_fval] in Hw. assert (Hdom : dur_dom dd = true) by exact Hw.
             destruct (dur_roundtrip dd Hdom) as [b [Hb _]]. rewrite Hb. eexists; reflexivity.
